@@ -56,7 +56,7 @@ def build_frames(at, cm, fields, vmaps, k=1):
     return spec
 
 
-def judge_pair(at, real, pos0, pos1, info0, info1, mapping, guess, viol, tags, frame0, frame1):
+def judge_pair(at, real, pos0, pos1, info0, info1, mapping, guess, viol, tags, frame0, frame1, margin=1e-9):
     """one consecutive pair; pos: {jid: complex}"""
     ends0 = {b[0] for b in frame0.big_edges_list} | {b[-1] for b in frame0.big_edges_list}
     ends1 = {b[0] for b in frame1.big_edges_list} | {b[-1] for b in frame1.big_edges_list}
@@ -85,7 +85,8 @@ def judge_pair(at, real, pos0, pos1, info0, info1, mapping, guess, viol, tags, f
     disp = max(abs(pos1[j] - pos0[j]) for j in real)
     sh = math.hypot((max(z.real for z in pr1) - min(z.real for z in pr1)) - (max(z.real for z in pr0) - min(z.real for z in pr0)),
                     (max(z.imag for z in pr1) - min(z.imag for z in pr1)) - (max(z.imag for z in pr0) - min(z.imag for z in pr0)))
-    inside = disp < 0.5 * dmin * (1 - 1e-9) and disp < 0.08 * ext * (1 - 1e-9) and sh < 0.10 * ext * (1 - 1e-9)
+    # margin: with cm=True a frame in the middle of a series is re-centred a second time (rounding of its centre of mass)
+    inside = disp < 0.5 * dmin * (1 - margin) - margin and disp < 0.08 * ext * (1 - margin) - margin and sh < 0.10 * ext * (1 - margin) - margin
     if inside and not guess:
         tags.append("inside_bounds")
         for j in real:
@@ -129,8 +130,13 @@ def run_series(at, cm, fields, vmaps, use_cm, guess_spec, viol, tags):
         tags.append("guess_true" if guess_spec[0] == "true" else "guess_wrong")
     ts = s0.mesh
     status = []
+    if use_cm:
+        # with cm=True the library re-centres every frame (all-vertex mean, rounded to 3 decimals) before tracking: the bounds of
+        # the statement are evaluated on the coordinates the tracker actually sees
+        pos = [{j: complex(s0.frames[t].vertices[infos[t]["jvid"][j]].x, s0.frames[t].vertices[infos[t]["jvid"][j]].y) for j in base} for t in range(len(fields))]
     for t in range(len(fields) - 1):
-        st = judge_pair(at, real, pos[t], pos[t + 1], infos[t], infos[t + 1], ts.mapping.get(t), guess if t == 0 else None, viol, tags, s0.frames[t], s0.frames[t + 1])
+        st = judge_pair(at, real, pos[t], pos[t + 1], infos[t], infos[t + 1], ts.mapping.get(t), guess if t == 0 else None, viol, tags, s0.frames[t], s0.frames[t + 1],
+                        margin=2e-3 if use_cm else 1e-9)
         status.append(st)
     # forward then backward over the whole series
     if all(x == "inside" for x in status) and guess is None:
